@@ -26,6 +26,7 @@ type evListener struct {
 	mu        sync.Mutex
 	delivered []*deliveredStatus
 	callbacks int32
+	slow      time.Duration // OnEvent takes this long (a slow application)
 }
 
 type deliveredStatus struct {
@@ -47,6 +48,9 @@ func (l *evListener) OnEvent(s *types.Status) {
 	l.delivered = append(l.delivered, &deliveredStatus{s: s, at: p, tag: tag})
 	l.mu.Unlock()
 	atomic.AddInt32(&l.callbacks, 1)
+	if l.slow > 0 {
+		time.Sleep(l.slow)
+	}
 }
 
 func (l *evListener) OnError(err error) bool {
@@ -125,6 +129,12 @@ func listenerScenario(id string, seed int64, lt *layoutTables, cycles int, recs 
 	for cy := 0; cy < cycles; cy++ {
 		log := &evlog{}
 		l := &evListener{log: log}
+		// every third scenario: a slow application (OnEvent takes 2 ms) that shuts the listener down ABRUPTLY, while
+		// events are still queued behind the one being handled
+		abrupt := seed%3 == 0
+		if abrupt {
+			l.slow = 2 * time.Millisecond
+		}
 		q := make(chan os.Signal, 1)
 		done := make(chan error, 1)
 		go func() { done <- u.Listen(l, q) }()
@@ -190,7 +200,7 @@ func listenerScenario(id string, seed int64, lt *layoutTables, cycles int, recs 
 		wg.Wait()
 		// every datagram has produced its call-back (or 2 s passed)
 		t1 := time.Now()
-		for atomic.LoadInt32(&l.callbacks) < atomic.LoadInt32(&total) && time.Since(t1) < 2*time.Second {
+		for !abrupt && atomic.LoadInt32(&l.callbacks) < atomic.LoadInt32(&total) && time.Since(t1) < 2*time.Second {
 			time.Sleep(time.Millisecond)
 		}
 		log.add(M{"ev": "quit"})
@@ -212,7 +222,7 @@ func listenerScenario(id string, seed int64, lt *layoutTables, cycles int, recs 
 		case <-time.After(3 * time.Second):
 			log.add(M{"ev": "hung"})
 		}
-		time.Sleep(3 * time.Millisecond) // a last OnEvent may still be running (allowed)
+		time.Sleep(3*time.Millisecond + 4*l.slow) // a last OnEvent may still be running (allowed)
 		evs := []any{}
 		for _, e := range log.sorted() {
 			delete(e, "seq")
